@@ -527,3 +527,65 @@ func ruleScanEndsAtEOF(r *Report) {
 	}
 	r.Min(rule, 1)
 }
+
+// R-OPEN-DEFAULTS: index.Open replaces a requested bit size / file size by the
+// header's value only when THAT parameter is 0 ("use what is there"). A merged
+// test (`bits == 0 || size == 0` ⇒ take both from the header) lets a caller
+// that passes 0 for one of them — translateIndex opens the old index with bits
+// 0 and the configured file size — have the other overridden as well, so the
+// file-size mismatch check compares the header with itself and a changed
+// IndexFileSize is accepted instead of refused.
+func ruleOpenDefaults(r *Report) {
+	const rule = "open-defaults"
+	fn := r.need(rule, "I", "Open")
+	if fn == nil {
+		return
+	}
+	n := 0
+	for _, hf := range []string{"Header.BucketsBits", "Header.MaxFileSize"} {
+		eachInstr(fn, func(in ssa.Instruction) {
+			phi, ok := in.(*ssa.Phi)
+			if !ok {
+				return
+			}
+			var par *ssa.Parameter
+			hdrIdx := -1
+			for i, e := range phi.Edges {
+				x := stripIntConv(e)
+				if p, isP := x.(*ssa.Parameter); isP && p.Parent() == fn {
+					par = p
+				}
+				if fieldOfLoad(x) == hf {
+					hdrIdx = i
+				}
+			}
+			if par == nil || hdrIdx < 0 {
+				return
+			}
+			n++
+			key := "Open/" + hf + "-default-only-when-" + par.Name() + "-is-zero"
+			ev := condEdges(fn, func(cond ssa.Value) (bool, bool) {
+				bo, ok := cond.(*ssa.BinOp)
+				if !ok || (bo.Op != token.EQL && bo.Op != token.NEQ) {
+					return false, false
+				}
+				if !(stripIntConv(bo.X) == ssa.Value(par) && isZeroConst(bo.Y)) && !(stripIntConv(bo.Y) == ssa.Value(par) && isZeroConst(bo.X)) {
+					return false, false
+				}
+				return bo.Op == token.EQL, bo.Op == token.NEQ
+			})
+			pred := phi.Block().Preds[hdrIdx]
+			site := lastInstr(pred)
+			ok2, path := guarded(fn, site, mkEdgeSet(ev), nil)
+			if ok2 && len(ev) > 0 {
+				r.Ok(rule, key, phi.Pos(), "the header's value replaces the requested one only when the request was 0")
+			} else {
+				r.BadPath(rule, key, phi.Pos(), "the header's "+hf+" can replace the requested value although the request was not 0 (the default is taken on a test of another parameter): the mismatch check then compares the header with itself, and a reopen that changes this setting is accepted instead of refused", path)
+			}
+		})
+	}
+	if n == 0 {
+		r.Bad(rule, "Open/defaults", fn.Pos(), "no 'use the header's value' default found in index.Open")
+	}
+	r.Min(rule, 1)
+}
